@@ -216,6 +216,19 @@ class CallMixin:
         return self._extremum(e, p, False)
 
     def _extremum(self, e, p, is_max):
+        if len(e.args) == 1 and len(e.keywords) == 1 and e.keywords[0].arg == "key" and isinstance(e.keywords[0].value, ast.Name) \
+                and e.keywords[0].value.id == "len":
+            # max(collection_of_collections, key=len): some element of maximal length
+            v = self.ev(e.args[0], p)
+            if isinstance(v.ty, T.Bag) and isinstance(v.ty.e, (T.Set, T.Bag)):
+                self._raise_if(p, v.ty.blen()(v.t) == 0, "ValueError", f"line {e.lineno}")
+                size = v.ty.e.card() if isinstance(v.ty.e, T.Set) else v.ty.e.blen()
+                r = fresh("ext", v.ty.e.sort())
+                x = fresh("x", v.ty.e.sort())
+                self._assume(p, v.t[r] >= 1)
+                self._assume(p, z3.ForAll([x], z3.Implies(v.t[x] >= 1, size(x) <= size(r) if is_max else size(x) >= size(r)), patterns=[v.t[x]]))
+                return T.scalar(v.ty.e, r)
+            raise Unsupported(f"max/min(.., key=len) of {v.ty}")
         v = self._one(e, p)
         if isinstance(v.ty, T.Bag) and v.ty.e == T.INT:
             self._raise_if(p, v.ty.blen()(v.t) == 0, "ValueError", f"line {e.lineno}")
